@@ -89,6 +89,7 @@ def check_rh_string(P, ver, s, kind="?", preceded_by=None):
 
 def check_object(P, ver, s):
     """rh-format and round-trip on one accepted vector; returns (obj, scores) or None."""
+    P.remember({"ver": ver, "vector": s})
     L = lib()
     P.evaluations += 1
     case = {"ver": ver, "vector": s}
